@@ -121,8 +121,13 @@ func oExcluded(rules []oRule, path string) bool {
 
 // ---- generators ----
 
-var patAtoms = []string{"foo", "bar", "a", "b", ".git", ".terraform", "modules", "*.tf", "f?o", "*", "**", "a+b", "x(1)", "c$", "é", "fo o", "b*r", "?", "^a", "a|b", "{a}", "ba.", "*a*"}
+var patAtoms = []string{"foo", "bar", "a", "b", ".git", ".terraform", "modules", "*.tf", "f?o", "*", "**", "a+b", "x(1)", "c$", "é", "fo o", "b*r", "?", "^a", "a|b", "{a}", "ba.", "*a*",
+	// a '*' that has to stand for the EMPTY run of characters (seed C10-h: '[^/]+' emitted for it): each
+	// has a path segment below that is the atom with its '*' removed
+	"terraform.tfstate*", "*.auto.tfvars", "cache*", "foo*", "*bar", "mod*ules"}
 var pathSegsIgn = []string{"foo", "bar", "a", "b", ".git", ".terraform", "modules", "x.tf", "fao", "a+b", "aab", "x(1)", "c$", "é", "fo o", "a\nb", "^a", "a|b", "{a}", "bar.", "baz", "bax",
+	// what a pattern atom with a '*' matches when the '*' stands for nothing, and for something
+	"terraform.tfstate", "terraform.tfstate.backup", ".auto.tfvars", "prod.auto.tfvars", "cache", "cache-old", ".tf", "br",
 	// a backslash in a PATH is an ordinary character of its segment (seed C03-g: turned into '/' before
 	// matching): inner, leading, trailing, several, next to what '*' and '?' have to cover
 	`foo\bar`, `a\b`, `\a`, `foo\`, `a\b\x.tf`, `.git\foo`}
@@ -132,6 +137,221 @@ var pathSegsIgn = []string{"foo", "bar", "a", "b", ".git", ".terraform", "module
 // backslash in a PATTERN is outside the modelled fragment), so these go to the model as well
 var backslashPathRules = []string{"/*.pem\nlogs/\n", "/sub/*.pem\n!logs\n", "sub?id.pem\nlogs*\n", "/*/id.pem\n", "logs/\n!logs/notes.txt\n", "?lead\n/trail*/x*\n", "**/notes.txt\n!/logs/**\n"}
 var backslashPaths = []string{`sub\id.pem`, "sub/id.pem", "id.pem", `logs\notes.txt`, "logs/notes.txt", "logs/", `logs\`, `logs\/`, `\lead`, `x/\lead`, `trail\/x\y\z`, `sub/win\style.tf`, `sub\sub\id.pem`, `sub\sub/id.pem`, `.git\config`, `.terraform\modules\x`}
+
+// rule files in which a line is REPEATED with a rule of the opposite polarity between the two occurrences
+// (shape A, B, A), each with paths that match both A and B: under last-match-wins the position of the
+// LAST occurrence decides (seed C03-h: repeated lines dropped, the first occurrence kept)
+var repeatedLineRules = []struct {
+	rules string
+	paths []string
+}{
+	{"*.pem\n!certs/public.pem\n*.pem\n", []string{"certs/public.pem", "certs/private.pem", "a.pem", "certs/", "main.tf"}},
+	{"!certs/public.pem\ncerts/\n!certs/public.pem\n", []string{"certs/public.pem", "certs/private.pem", "certs/", "certs", "x/certs/public.pem"}},
+	{"foo\n!foo\nfoo\n", []string{"foo", "a/foo", "foo/", "foo/bar", "bar"}},
+	{"!foo\nfoo\n!foo\n", []string{"foo", "a/foo", "foo/", "foo/bar", "bar"}},
+	{"/a\n  !a  \n/a\n!b\n", []string{"a", "b/a", "a/", "b"}},
+	{"logs/\n# keep the audit log\n!logs/audit.log\n\nlogs/\n", []string{"logs/audit.log", "logs/app.log", "logs/", "x/logs/audit.log"}},
+	{"*.tf\n!x.tf\n!main.tf\n*.tf\n!x.tf\n", []string{"x.tf", "main.tf", "a/x.tf", "a/main.tf", "y.tf"}},
+	{"**/b\n!a/b\n**/b\r\n", []string{"a/b", "b", "x/a/b", "a/b/"}},
+	{"!.terraform/\n.terraform/\n!.terraform/\n", []string{".terraform/x", ".terraform/", "a/.terraform/x", ".terraform/modules/m"}},
+	{".git/\n!.git/\n.git/\n", []string{".git/config", ".git/", "a/.git/HEAD"}},
+}
+
+// rules with one '*' against names for which the '*' has to match ZERO characters, next to names for
+// which it matches some (seed C10-h)
+var emptyStarRules = []struct {
+	rules string
+	paths []string
+}{
+	{"terraform.tfstate*\n", []string{"terraform.tfstate", "terraform.tfstate.backup", "a/terraform.tfstate", "terraform.tfstat", "terraform.tfstate/"}},
+	{"*.auto.tfvars\n", []string{".auto.tfvars", "prod.auto.tfvars", "env/.auto.tfvars", "auto.tfvars"}},
+	{"cache*/\n", []string{"cache/blob", "cache-old/blob", "cache/", "cache", "a/cache/x"}},
+	{"modules/*/scratch*\n", []string{"modules/a/scratch", "modules/a/scratch.txt", "modules/scratch", "modules/a/b/scratch"}},
+	{"/*a*\n!/b*\n", []string{"a", "ba", "ab", "b", "x/a"}},
+	{"a*b*c\n", []string{"abc", "axbc", "abxc", "axbxc", "ab/c"}},
+	{"*\n!*.tf*\n", []string{"x.tf", ".tf", "x.tfvars", "x", "a/.tf"}},
+	{"foo*/**/*bar\n", []string{"foo/bar", "foo/x/bar", "foo1/x/2bar", "foo/x/y/bar", "foobar"}},
+}
+
+// pathForPattern builds a path that the pattern (one rule line, '!' and surrounding blanks allowed) is meant
+// to cover: every atom becomes a segment in which '?' stands for one character and '*' for no character
+// at all or for one; '**' becomes zero to two segments; a directory rule gets something below it.
+func pathForPattern(r *Rng, pat string) string {
+	pat = strings.TrimFunc(pat, isSpaceRune)
+	pat = strings.TrimPrefix(pat, "!")
+	anchored := strings.HasPrefix(pat, "/")
+	dirRule := strings.HasSuffix(pat, "/")
+	var segs []string
+	for _, a := range strings.Split(strings.Trim(pat, "/"), "/") {
+		if a == "**" {
+			for k := r.Intn(3); k > 0; k-- {
+				segs = append(segs, r.Pick([]string{"a", "b", "foo", "d"}))
+			}
+			continue
+		}
+		var b strings.Builder
+		for _, ch := range a {
+			switch ch {
+			case '*':
+				if r.Bool() {
+					b.WriteString(r.Pick([]string{"x", "a", "-old", "é"}))
+				}
+			case '?':
+				b.WriteString(r.Pick([]string{"a", "o", "é"}))
+			default:
+				b.WriteRune(ch)
+			}
+		}
+		if b.Len() == 0 {
+			b.WriteString("x")
+		}
+		segs = append(segs, b.String())
+	}
+	if len(segs) == 0 {
+		segs = []string{"a"}
+	}
+	if !anchored && r.Chance(40) {
+		segs = append([]string{r.Pick([]string{"a", "modules", "d"})}, segs...)
+	}
+	p := strings.Join(segs, "/")
+	switch {
+	case dirRule && r.Chance(70):
+		p += "/" + r.Pick([]string{"x", "a/b", "main.tf"})
+	case dirRule || r.Chance(15):
+		p += "/"
+	}
+	return p
+}
+
+// flipRule: the same pattern with the other polarity
+func flipRule(line string) string {
+	t := strings.TrimFunc(line, isSpaceRune)
+	if strings.HasPrefix(t, "!") {
+		return t[1:]
+	}
+	return "!" + t
+}
+
+// genRepeatedRuleFile: a generated rule file in which one line A occurs twice with a rule B of the opposite
+// polarity in between (B: A's own pattern, or the literal path the case is probed with), other lines
+// around; and paths that A covers.
+func genRepeatedRuleFile(r *Rng) (string, []string) {
+	a := genPattern(r)
+	for strings.Trim(a, "!/") == "" {
+		a = genPattern(r)
+	}
+	probe := []string{pathForPattern(r, a), pathForPattern(r, a), pathForPattern(r, a)}
+	b := flipRule(a)
+	if r.Chance(50) {
+		lit := strings.TrimSuffix(probe[0], "/")
+		if r.Chance(50) {
+			lit = "/" + lit
+		}
+		b = lit
+		if !strings.HasPrefix(a, "!") {
+			b = "!" + lit
+		}
+	}
+	var lines []string
+	for k := r.Intn(2); k > 0; k-- {
+		lines = append(lines, genPattern(r))
+	}
+	lines = append(lines, a)
+	if r.Chance(25) {
+		lines = append(lines, r.Pick([]string{"", "# between", genPattern(r)}))
+	}
+	lines = append(lines, b)
+	if r.Chance(25) {
+		lines = append(lines, r.Pick([]string{"", "  ", genPattern(r)}))
+	}
+	if r.Chance(15) {
+		lines = append(lines, "  "+a+" ") // the repeat differs in surrounding blanks only
+	} else {
+		lines = append(lines, a)
+	}
+	if r.Chance(20) {
+		lines = append(lines, genPattern(r))
+	}
+	sep := "\n"
+	if r.Chance(10) {
+		sep = "\r\n"
+	}
+	s := strings.Join(lines, sep)
+	if r.Chance(70) {
+		s += sep
+	}
+	return s, probe
+}
+
+// ---- rule lines made from the names of a generated tree (pack and sanitise lanes) ----
+
+// safeRuleName: the relative path can be written into a rule line as it is (no pattern syntax, no
+// backslash, no control or edge blank that line reading would cut, not a comment or negation mark)
+func safeRuleName(rel string) bool {
+	if rel == "" || strings.ContainsAny(rel, "\\[]*?") || rel[0] == '!' || rel[0] == '#' {
+		return false
+	}
+	rs := []rune(rel)
+	if isSpaceRune(rs[0]) || isSpaceRune(rs[len(rs)-1]) {
+		return false
+	}
+	for _, ch := range rs {
+		if ch < 0x20 || (ch >= 0x7f && ch < 0xa0) {
+			return false
+		}
+	}
+	return true
+}
+
+func splitRel(rel string) (dir, base string) {
+	if i := strings.LastIndex(rel, "/"); i >= 0 {
+		return rel[:i+1], rel[i+1:]
+	}
+	return "", rel
+}
+
+// emptyStarRuleFor: a rule with one '*' that covers rel only if the '*' matches ZERO characters
+// (seed C10-h): the '*' put at a random position of the last name; as a bare name, below its directory,
+// or anchored
+func emptyStarRuleFor(r *Rng, rel string) string {
+	dir, base := splitRel(rel)
+	rs := []rune(base)
+	k := r.Intn(len(rs) + 1)
+	if r.Chance(50) {
+		k = len(rs) // 'terraform.tfstate*'
+	}
+	pat := string(rs[:k]) + "*" + string(rs[k:])
+	switch r.Intn(3) {
+	case 0:
+		return pat
+	case 1:
+		return "/" + dir + pat
+	}
+	return dir + pat
+}
+
+// repeatedRuleFor: three rule lines A, B, A (B of the other polarity) that all cover rel (seed C03-h)
+func repeatedRuleFor(r *Rng, rel string) string {
+	_, base := splitRel(rel)
+	glob := "*"
+	if i := strings.LastIndex(base, "."); i > 0 {
+		glob = "*" + base[i:]
+	} else if rs := []rune(base); len(rs) > 1 {
+		glob = string(rs[:1]) + "*"
+	}
+	var a, b string
+	switch r.Intn(4) {
+	case 0:
+		a, b = base, "!"+base
+	case 1:
+		a, b = "!"+base, base
+	case 2:
+		a, b = glob, "!"+rel
+	default:
+		a, b = "!/"+rel, glob
+	}
+	return a + "\n" + b + "\n" + a + "\n"
+}
 
 // lines that are (nearly) nothing but syntax: every normalisation step of readRules sees an
 // empty or one-character remainder on one of them (seed C19-b: a lone "/")
@@ -243,7 +463,7 @@ var bigRulePaths = []string{"secret.auto.tfvars", "private/key.pem", "private/",
 
 func init() {
 	lanes["ignore"] = func(cfg *Config, rep *Report) {
-		rep.Rule = "rule files of 0..4 lines from a pattern grammar (23 atoms incl. *, ?, **, regexp metacharacters, non-ASCII, spaces) x anchoring x trailing slash x negation, with comments, blank, whitespace-only and '!' lines, CRLF; each against 12 paths of depth 1..5 over 28 segments (incl. newline, metacharacters, backslashes: ordinary characters of a path), optional trailing slash; seven rule files whose verdict depends on segment boundaries against 16 paths with and without backslashes; plus three generated rule files judged by the segment-wise matcher only (two of about 1 MiB of short lines with the rules that matter at the end, one with a 70 KiB comment line); non-trivial = rule file has a negation, a '**', or a metacharacter atom; distinct by (rule file, paths)"
+		rep.Rule = "rule files of 0..4 lines from a pattern grammar (29 atoms incl. *, ?, **, regexp metacharacters, non-ASCII, spaces) x anchoring x trailing slash x negation, with comments, blank, whitespace-only and '!' lines, CRLF; each against 12 paths of depth 1..5 over 36 segments (incl. newline, metacharacters, backslashes: ordinary characters of a path; names that a starred atom covers with its '*' standing for nothing), optional trailing slash; 18% of the rule files probed with paths built from their own lines, 12% with a line repeated after a rule of the other polarity (A, B, A) and paths both cover; ten fixed rule files of that shape and eight with a '*' that has to match zero characters; seven rule files whose verdict depends on segment boundaries against 16 paths with and without backslashes; plus three generated rule files judged by the segment-wise matcher only (two of about 1 MiB of short lines with the rules that matter at the end, one with a 70 KiB comment line); non-trivial = rule file has a negation, a '**', or a metacharacter atom; distinct by (rule file, paths)"
 		r := NewRng(cfg.Seed)
 		var reqs, impl []string
 		var human []interface{}
@@ -397,6 +617,14 @@ func init() {
 		for _, rules := range backslashPathRules {
 			runOne(rules, backslashPaths, false, nil)
 		}
+		for _, c := range repeatedLineRules {
+			rep.Count("corpus:repeated-line")
+			runOne(c.rules, c.paths, false, nil)
+		}
+		for _, c := range emptyStarRules {
+			rep.Count("corpus:empty-star")
+			runOne(c.rules, c.paths, false, nil)
+		}
 		for i := 0; i < cfg.N; i++ {
 			content := genRuleFile(r)
 			if i < 2*len(degenerateRuleLines) {
@@ -408,6 +636,28 @@ func init() {
 			paths := make([]string, 12)
 			for j := range paths {
 				paths[j] = genIgnPath(r)
+			}
+			if i >= 2*len(degenerateRuleLines) {
+				switch x := r.Intn(100); {
+				case x < 12:
+					// a repeated line with a rule of the other polarity in between, and paths both cover
+					var probe []string
+					content, probe = genRepeatedRuleFile(r)
+					copy(paths, probe)
+					rep.Count("shape:repeated-line (A, B, A)")
+				case x < 30:
+					// paths made from the rule file's own lines ('*' standing for nothing or for one character)
+					k := 0
+					for _, l := range strings.Split(strings.ReplaceAll(content, "\r", ""), "\n") {
+						if t := strings.TrimFunc(l, isSpaceRune); t != "" && t != "!" && t[0] != '#' && strings.Trim(t, "!/") != "" && k < 6 {
+							paths[k] = pathForPattern(r, t)
+							k++
+						}
+					}
+					if k > 0 {
+						rep.Count("shape:paths-from-patterns")
+					}
+				}
 			}
 			exotic := false
 			if i >= 2*len(degenerateRuleLines) && r.Chance(5) {
